@@ -27,6 +27,12 @@ def atom(kind, i, t):
         return N(v), v, {v: val}
     if kind == 'u':
         return N('undef%d' % i), 'undef%d' % i, {}
+    if kind == 'uq':        # an undefined name that needs quoting in the tag (and would need escaping in HTML)
+        nm = ('undef R&D', "undef owner's", 'undef a<b>')[i % 3]
+        return N(nm), nm, {}
+    if kind == 'nq':        # a defined one
+        nm = ('R&D %d' % i, "it's %d" % i, 'a<b> %d' % i)[i % 3]
+        return N(nm), nm, {nm: val}
     if kind == 'xc':
         return C(c), c, {c: f}
     if kind == 'xv':
@@ -38,7 +44,7 @@ def atom(kind, i, t):
     raise ValueError(kind)
 
 
-ATOMS = [('nf', True), ('nf', False), ('np', True), ('np', False), ('u', False), ('xc', True),
+ATOMS = [('nf', True), ('nf', False), ('np', True), ('np', False), ('u', False), ('uq', False), ('nq', True), ('xc', True),
          ('xc', False), ('xv', True), ('xv', False), ('xn', True), ('xn', False)]
 
 
